@@ -144,8 +144,8 @@ static int parse_pre(int n)
 }
 
 /* the deep family: fixed shapes for any node count n */
-enum { F_LSPINE, F_RSPINE, F_ZIGL, F_ZIGR, F_LCOMB, F_RCOMB, F_ZCOMB, F_FULL, F_LSFULL, F_RSFULL, NFAM };
-static const char *famname[NFAM] = { "lspine", "rspine", "zigl", "zigr", "lcomb", "rcomb", "zcomb", "full", "lsfull", "rsfull" };
+enum { F_LSPINE, F_RSPINE, F_ZIGL, F_ZIGR, F_LRSPINE, F_RLSPINE, F_INNER, F_OUTER, F_LCOMB, F_RCOMB, F_ZCOMB, F_FULL, F_LSFULL, F_RSFULL, NFAM };
+static const char *famname[NFAM] = { "lspine", "rspine", "zigl", "zigr", "lrspine", "rlspine", "inner", "outer", "lcomb", "rcomb", "zcomb", "full", "lsfull", "rsfull" };
 static int gen_full(char *s, int n)			/* heap-shaped tree: node h has children 2h+1, 2h+2 while < n */
 {
 	int sp = 0, pos = 0;
@@ -171,6 +171,19 @@ static int gen_family(int fam, int n)
 	case F_ZIGL: case F_ZIGR:
 		for (; pos < n - 1; pos++) s[pos] = ((pos & 1) == (fam == F_ZIGR)) ? 'L' : 'R';
 		s[pos++] = 'o'; break;
+	case F_LRSPINE: case F_RLSPINE:	/* one step to the left, then a right spine (the longest in-order predecessor search) / mirrored */
+		if (n < 3) return -1;
+		s[pos++] = fam == F_LRSPINE ? 'L' : 'R';
+		for (; pos < n - 1; pos++) s[pos] = fam == F_LRSPINE ? 'R' : 'L';
+		s[pos++] = 'o'; break;
+	case F_INNER: case F_OUTER: {	/* root with two spines that lean towards each other / away from each other */
+		int a = (n - 1) / 2, b = n - 1 - a;
+		if (n < 5) return -1;
+		s[pos++] = 'B';
+		for (int i = 0; i < a - 1; i++) s[pos++] = fam == F_INNER ? 'R' : 'L';
+		s[pos++] = 'o';
+		for (int i = 0; i < b - 1; i++) s[pos++] = fam == F_INNER ? 'L' : 'R';
+		s[pos++] = 'o'; break; }
 	case F_LCOMB:			/* left spine, a leaf on the right of every spine node (the left-leaning list shape) */
 		if (n < 3) return -1;
 		m = n; if (!(n & 1)) { s[pos++] = 'L'; m--; }
@@ -400,9 +413,9 @@ static void case_text(vx_sb *d, vx_sb *r)
  * case that fails in that way and names the signature after it: every worker reports the same, smallest case. */
 #define MAXKEYS 96
 static struct { char *key, *sig; } keys[MAXKEYS]; static int nkeys;
-static struct { char *key, *desc, *replay, *msg; } pend[MAXKEYS]; static int npend;
-static int probing, probe_hit, probe_hangs, deep_unit, probe_last_unit; static const char *probe_key;
-static char *probe_desc, *probe_replay, *probe_msg;
+static struct { char *key, *desc, *replay, *msg; int op, hit; char *hdesc, *hreplay, *hmsg; } pend[MAXKEYS]; static int npend;
+static int probing, probe_hit, probe_hangs, deep_unit, probe_last_unit;	/* probe_hit: every pending key has been met */
+static unsigned probe_ops;
 
 static void emit_violation(const char *key, const char *desc, const char *replay, const char *msg)
 {
@@ -422,10 +435,15 @@ static void fail(const char *clause, const char *cls, const char *fmt, ...)
 	if (C.pass == PASS_LIST) snprintf(key, sizeof(key), "list.%s|%s", clause, cls);
 	else snprintf(key, sizeof(key), "%s.%s|%s", opname[C.op], clause, cls);
 	if (probing) {
-		if (!probe_hit && !strcmp(key, probe_key)) {
-			probe_hit = 1;
-			probe_desc = strdup(d.s); probe_replay = strdup(r.s); probe_msg = strdup(m);
+		int open_keys = 0;
+		for (int i = 0; i < npend; i++) {
+			if (!pend[i].hit && !strcmp(key, pend[i].key)) {
+				pend[i].hit = 1;
+				pend[i].hdesc = strdup(d.s); pend[i].hreplay = strdup(r.s); pend[i].hmsg = strdup(m);
+			}
+			if (!pend[i].hit) open_keys++;
 		}
+		if (!open_keys) probe_hit = 1;
 		goto out;
 	}
 	vx_viol_total++;
@@ -433,7 +451,7 @@ static void fail(const char *clause, const char *cls, const char *fmt, ...)
 	for (int i = 0; i < npend; i++) if (!strcmp(pend[i].key, key)) goto out;
 	if (C.pass == PASS_DEEP && !g_replay && npend < MAXKEYS) {
 		pend[npend].key = strdup(key); pend[npend].desc = strdup(d.s);
-		pend[npend].replay = strdup(r.s); pend[npend].msg = strdup(m); npend++;
+		pend[npend].replay = strdup(r.s); pend[npend].msg = strdup(m); pend[npend].op = C.op; pend[npend].hit = 0; npend++;
 	} else
 		emit_violation(key, d.s, r.s, m);
 out:
@@ -852,16 +870,20 @@ static void run_deep_unit(int fam, int n, int count)
 	for (int lay = 0; lay < NLAY; lay++) for (int pl = 0; pl < NPL; pl++) {
 		if (probing ? probe_hit || probe_hangs >= 2 : too_many()) return;
 		C.layout = lay * NPL + pl;
+		/* the members around 2^16: three of the six layouts (ascending, permuted, under-aligned reversed) */
+		if (n > 2000 && !(C.layout == 0 || C.layout == LAY_A8 * NPL + PL_PERM || C.layout == LAY_M2 * NPL + PL_REV)) { CNT("deep_scope_skip_layout_at_2_16", 1); continue; }
 		if (!build_arena(lay, pl)) continue;
-		uint64_t lim = (lay == LAY_A8 && pl == PL_ASC && COST_BIG > COST_ALL) ? COST_BIG : COST_ALL;
+		/* the expensive members (thorough tier): first layout only, and the three sizes 2^16-1, 2^16, 2^16+1 */
+		uint64_t lim = (lay == LAY_A8 && pl == PL_ASC && COST_BIG > COST_ALL && n >= 65535 && n <= 65537) ? COST_BIG : COST_ALL;
 		for (int op = 0; op < OP_N; op++) {
+			if (probing && !(probe_ops >> op & 1)) continue;
 			/* in-/pre-order iteration and the recursive traversals are linear; post-order iteration and the free
 			 * functions walk down from the root for every node */
 			if (op >= OP_IT_POST && shape_cost > lim) { CNT("deep_scope_skip_quadratic_operation_above_cost_bound", 1); continue; }
 			if (op >= OP_IT_POST && shape_cost > COST_ALL && op != OP_IT_POST && op != OP_FREE) { CNT("deep_scope_skip_quadratic_operation_above_cost_bound", 1); continue; }
 			run_case(op, 0, -1);
 			CNT("deep_cases", 1);
-			if (op <= OP_IT_POST && shape_cost <= COST_ALL) {
+			if (op <= OP_IT_POST && shape_cost <= COST_ALL && (n <= 2000 || C.layout == 0)) {
 				int js[3] = { 1, K / 2, K - 1 };
 				for (int q = 0; q < 3; q++) { run_case(op, 0, js[q]); CNT("deep_cases", 1); }
 			}
@@ -871,13 +893,14 @@ static void run_deep_unit(int fam, int n, int count)
 static int deep_pass(int probe);
 static void deep_flush_pending(void)
 {
+	/* one sweep for all keys that are new: only the operations they name, from the first unit up to the one just run */
+	probe_hit = 0; probe_hangs = 0; probe_last_unit = deep_unit; probe_ops = 0;
+	for (int i = 0; i < npend; i++) probe_ops |= 1u << pend[i].op;
+	if (n_hangs < 3) { probing = 1; deep_pass(1); probing = 0; }
 	for (int i = 0; i < npend; i++) {
-		const char *desc = pend[i].desc, *rep = pend[i].replay, *msg = pend[i].msg;
-		probe_hit = 0; probe_hangs = 0; probe_key = pend[i].key; probe_last_unit = deep_unit;
-		if (n_hangs < 3) { probing = 1; deep_pass(1); probing = 0; }
-		if (probe_hit) { desc = probe_desc; rep = probe_replay; msg = probe_msg; }
-		emit_violation(pend[i].key, desc, rep, msg);
-		if (probe_hit) { free(probe_desc); free(probe_replay); free(probe_msg); probe_hit = 0; }
+		if (pend[i].hit) emit_violation(pend[i].key, pend[i].hdesc, pend[i].hreplay, pend[i].hmsg);
+		else emit_violation(pend[i].key, pend[i].desc, pend[i].replay, pend[i].msg);
+		if (pend[i].hit) { free(pend[i].hdesc); free(pend[i].hreplay); free(pend[i].hmsg); }
 		free(pend[i].key); free(pend[i].desc); free(pend[i].replay); free(pend[i].msg);
 	}
 	npend = 0;
@@ -1047,7 +1070,7 @@ static void list_pass(uint64_t *part)
 					uint64_t cost = dir ? (uint64_t)len : (uint64_t)len * (uint64_t)len / 2;
 					g_count = vx_mine((*part)++);
 					if (too_many() || vx_deadline_passed()) continue;
-					if (cost > LIST_COST_BIG) { CNT("list_scope_skip_left_leaning_above_cost_bound", 1); continue; }
+					if (cost > LIST_COST_BIG || (cost > LIST_COST_ALL && (place || len < 65535 || len > 65537))) { CNT("list_scope_skip_left_leaning_above_cost_bound", 1); continue; }
 					if (cost > LIST_COST_ALL && !g_count) continue;
 					run_list_case(dir, len, elem, place);
 					if (g_count) { vx_count("list_cases", 1); vx_max(dir ? "list_max_spine_length_right" : "list_max_spine_length_left", (uint64_t)len); }
